@@ -15,6 +15,22 @@ chk("C02","exploration","runtime monitors on hooked state: validation of every p
  "Held on the executions reported: each sub-request (plan level and as received on the wire) validates against its service's SDL, variables coerce and carry client values, client coordinates are covered at declaring services, helpers are only id/__typename and registered for scrubbing.",
  "Trusted: gqlparser validator; coordinate flattening in harness/internal/props/c02.go.","DESIGN.md §5 C02")
 
+chk("C03","exploration","runtime monitor over the merger's real output: schema fact-set equality under every permutation of the service list, plus repeated Merge over the same parsed inputs",
+ "Held on every (universe x permutation x merger) explored: the merged schema's fact set equals the union of the services' fact sets, re-prints/re-loads, and service-valid operations stay valid.",
+ "Trusted: fact extraction over gqlparser ast.Schema; SDL loading equals introspector output (C15 covers the introspector).","DESIGN.md §5 C03")
+chk("C04","exploration","runtime invariant check on hooked state (MergeResult.TypeURLMap captured from the real merger) against the service SDLs",
+ "Held on every (universe x permutation x merger) explored: every routable field has a route to a declaring service, node flags match the merged schema, routed services = contributing services.",
+ "Trusted: service SDLs as ground truth for 'declares'.","DESIGN.md §5 C04")
+chk("C05","fault_enumeration","fault enumeration: every conflict-edit kind x service pair x permutation injected into mergeable bases; oracle on Merge's error value under recover",
+ "For each sampled base the (edit kind x pair x permutation) space is enumerated completely: conflicts must be rejected with an error in every order, bases accepted with identical facts and Node routes in every order.",
+ "Trusted: each edit introduces exactly one conflict (fresh names); gqlparser loads each edited service SDL.","DESIGN.md §5 C05")
+chk("C06","fault_enumeration","offline exactly-once checker over the recorded downstream event log, with single-fault injection addressed by call index",
+ "Held on the executions explored: each mutation root key reached its owner in exactly one mutation request per client request, also with a downstream fault at each sampled call index, with batching limits 1/2/3000 and repeated requests through the plan cache.",
+ "Trusted: fake-service event log (append under mutex before answering); log segmentation by client call.","DESIGN.md §5 C06")
+chk("C12","exploration","offline call-count checker over the recorded downstream event log vs plan shape; differential data check",
+ "Held on the executions explored: per service, HTTP calls <= plan levels for list lengths 1..300 with heavy entity duplication; no duplicate {id} lookups inside one batch; answers equal the reference.",
+ "Trusted: event log; plan obtained from SequentialPlanner.Plan on the same context.","DESIGN.md §5 C12")
+
 claimed=set(C)
 na=[{"property_id":p['id'],"reason":"check under construction in this round; not claimed yet"} for p in props if p['id'] not in claimed]
 m={"version":1,"setup_cmd":"./run.sh build && ./run.sh selftest",
